@@ -33,6 +33,7 @@ type Obl struct {
 	Pos    token.Pos
 	g      *Gen
 	Custom string // complete query body for lemma obligations (no function context)
+	RegexCode, RegexRef string // regex obligations: the two patterns (for witness replay)
 }
 
 type predState struct {
@@ -787,9 +788,12 @@ func (g *Gen) analyzeCFG() {
 				rets = append(rets, in)
 			}
 			if cc != nil {
-				if _, isB := cc.Value.(*ssa.Builtin); !isB {
+				if bi, isB := cc.Value.(*ssa.Builtin); !isB {
 					nseq++
 					pcs = append(pcs, posCall{in.Pos(), cc, g.c.calleeLabel(cc), nseq})
+				} else if bi.Name() == "copy" || bi.Name() == "append" {
+					nseq++
+					pcs = append(pcs, posCall{in.Pos(), cc, bi.Name(), nseq})
 				}
 			}
 		}
